@@ -322,7 +322,7 @@ func init() {
 			return out
 		},
 		PathModels: true, PathModelSample: 60, Assumptions: assumeCommon,
-		Stubs: append([]string{"strconv.ParseFloat(s, 64) on a symbolic digit string: its documented contract - the float64 nearest (IEEE-754 ties to even) to the decimal value of s - stated over exact integers (fresh significand per binade); float64 conversion from and to integers, negation, comparison, Trunc/Floor/Ceil, multiplication and division by a CONSTANT float64 are exact integer arithmetic on significand and binary exponent (engine/sym/float.go); no floating-point theory is used"}, stubsLevelA...),
+		Stubs:         append([]string{"strconv.ParseFloat(s, 64) on a symbolic digit string: its documented contract - the float64 nearest (IEEE-754 ties to even) to the decimal value of s - stated over exact integers (fresh significand per binade); float64 conversion from and to integers, negation, comparison, Trunc/Floor/Ceil, multiplication and division by a CONSTANT float64 are exact integer arithmetic on significand and binary exponent (engine/sym/float.go); no floating-point theory is used"}, stubsLevelA...),
 		Bounds:        map[string]interface{}{"quick": "Int64: coefficients up to 22 digits, exponents -22..22 (each value), zero coefficient with exponent <= 24 and exactly 25, 129, 100000; Modf: 6 digits, exponents -8..8; constructors: all int64 values, all exponents; Float64: every coefficient up to 22 digits, both signs, every exponent in -24..24", "thorough": "Int64 30 digits; Float64 30 digits, exponents -40..40"},
 		Outside:       []string{"Float64 on longer coefficients or exponents outside the window (in particular results that are subnormal, zero by underflow, or infinite)", "float arithmetic other than the listed operations (two symbolic factors, addition, float32): such a path ends as cut_float and is reported as an excluded region", "SetFloat64 followed by Float64 is decided in C13", "other zero coefficients with exponent > 24 (the x10 loop runs Exponent times)"},
 		RequireCovers: []string{"int64.ok", "int64.error", "float64.ok"}}
@@ -471,7 +471,7 @@ func init() {
 		},
 		PathModels: true, PathModelSample: 40, Assumptions: assumeCommon,
 		Stubs: append([]string{"strconv.AppendFloat(f, 'e'|'E', prec, 64) on a symbolic float64: its documented contract - prec -1: SOME decimal of 1..17 significant digits whose nearest float64 is f (every digit count that admits one is explored: a superset of the real outputs; minimality is not modelled); prec >= 0: the (prec+1)-digit decimal nearest to f, ties to even", "strconv.ParseFloat(s, 64) on a symbolic digit string: the float64 nearest (ties to even) to the decimal value of s", "both contracts and all float64 arithmetic are stated over exact integers (significand, binary exponent), engine/sym/float.go; digits printed from one integer and read back unchanged denote that integer (digit provenance)"}, stubsLevelA...),
-		Bounds:        map[string]interface{}{"quick": "all forms and signs; coefficients up to 4 digits (Compose/Decompose: 6), exponents -12..8 plus the windows at +-100000 and the -2000 zero boundary, 'f' up to |exponent| 40", "thorough": "8 digits",
+		Bounds: map[string]interface{}{"quick": "all forms and signs; coefficients up to 4 digits (Compose/Decompose: 6), exponents -12..8 plus the windows at +-100000 and the -2000 zero boundary, 'f' up to |exponent| 40", "thorough": "8 digits",
 			"float64": "SetFloat64 then Float64 on +-0, +-Inf, NaN and on EVERY normal float64 with binary exponent (of the 53-bit integer significand) in [-100, 59] (about 3.6e-15 .. 1.0e34); thorough [-330, 279] (about 2e-84 .. 1.7e100)"},
 		Outside:       []string{"float64 values outside the stated binary-exponent window, subnormal float64s", "that SetFloat64 stores the SHORTEST coefficient (a property of strconv.AppendFloat's contract, which the stub does not model: only that the stored decimal rounds to the argument)", "NaN payloads (String does not print them; Decompose does not carry them)", "longer coefficients"},
 		RequireCovers: []string{"format.zero", "compose.finite", "float.roundtrip"}}
